@@ -65,13 +65,13 @@ impl Leaf for Mode {
 impl Leaf for [u8; 3] {
     const LNAME: &'static str = "[u8;3]";
     fn lgen(g: &mut Gen) -> Val {
-        Val::L((0..3).map(|_| Val::I(g.int(8, false))).collect())
+        Val::R((0..3).map(|_| Val::I(g.int(8, false))).collect())
     }
     fn lmk(v: &Val) -> Self {
         [v.field(0).int() as u8, v.field(1).int() as u8, v.field(2).int() as u8]
     }
     fn lrd(&self) -> Val {
-        Val::L(self.iter().map(|x| Val::I(*x as i128)).collect())
+        Val::R(self.iter().map(|x| Val::I(*x as i128)).collect())
     }
 }
 
